@@ -47,11 +47,11 @@ MUTANTS += _seeded()
 MUTANTS += [
     # ---- C02
     dict(prop='C02', name='skip-last-callback-when-3plus', edits=[(CORE,
-         "        for callback in callbacks:\n            callback(event)",
-         "        for callback in (callbacks[:-1] if len(callbacks) > 3 else callbacks):\n            callback(event)")]),
+         "        for callback in callbacks:\n            try:",
+         "        for callback in (callbacks[:-1] if len(callbacks) > 3 else callbacks):\n            try:")]),
     dict(prop='C02', name='callbacks-reversed', edits=[(CORE,
-         "        for callback in callbacks:\n            callback(event)",
-         "        for callback in reversed(callbacks):\n            callback(event)")]),
+         "        for callback in callbacks:\n            try:",
+         "        for callback in reversed(callbacks):\n            try:")]),
     dict(prop='C02', name='resume-does-not-defuse', edits=[(EVENTS,
          "                    event._defused = True\n\n                    # Create an exclusive copy",
          "                    pass\n\n                    # Create an exclusive copy")]),
